@@ -28,7 +28,8 @@
    fetch from the wrapped stream - the only place where HEAD waits - raises the cancellation (k = 1 is also what an
    already cancelled scope does to HEAD).  A cancelled call returns RCancelled; what earlier fetches of the same call
    brought in stays in the buffer.  Every step also returns the ARRIVAL LOG: the bytes that entered the wrapper during the call, in order
-   (fed data and chunks read); theorem arrival_log_spec pins it to the environment (fetch_arrivals / src).
+   (fed data and chunks read); step_conservation (log_spec) relates it to the environment: exactly for receive_until
+   (fetch_arrivals), up to the chunk boundaries for receive_exactly (weave).
    aclose()/_closed is outside C16 and not modelled. *)
 From AV Require Import Base.
 
